@@ -365,16 +365,18 @@ class C04(Check):
                     n_scorers += 1
                 else:
                     events.append([3, int(rng.random() < 0.7)])
-            if rng.random() < p_rule:
+            # several rules / scorers may be asked in the SAME state (what one of them computes or caches must
+            # not change what the next one selects)
+            for _ in range(rng.choice([1, 1, 2, 3]) if rng.random() < p_rule else 0):
                 scorers = list(range(n_scorers))
                 r = rng.random()
-                if r < 0.2:
+                if r < 0.3:
                     events.append([5, rng.randrange(5)])
-                elif r < 0.45 and scorers:
-                    events.append([6, rng.choice(scorers)])
                 elif r < 0.5 and scorers:
+                    events.append([6, rng.choice(scorers)])
+                elif r < 0.55 and scorers:
                     events.append([4, rng.choice(scorers)])
-                elif r < 0.85:
+                elif r < 0.87:
                     events.append([7, self.gen_sfuns(rng, scorers), rng.randrange(10 ** 6)])
                 else:
                     events.append([8, self.gen_sfuns(rng, scorers)[0], rng.randrange(10 ** 6)])
